@@ -21,7 +21,9 @@ META = {
     "assumptions": [],
     "not_decided": "sizes of shrinking groups and of appended slices (integer arithmetic over limit, len, index)",
 }
+META["technique"] = "static analysis: dominance / provenance / typestate rules over rustc MIR facts (rustc_private driver) + path-partitioned abstract interpretation in a linear-inequality domain (view-length balance; Fourier-Motzkin emptiness, no execution, no external solver)"
 META["explanation"] += " R15.5 a Reset emitted by the Head / Tail translators is cut to the limit (truncate / take / local cutting helper with a limit-dependent argument, or skip relative to the skipped vector's own length; a skip position computed from the previous length in a length-changing arm is a violation)."
+META["explanation"] += " R15.6 (balance.py, the same abstract interpretation as R09.12): after every emitted diff of every path of every arm the running length of the consumer's view is at most L in every feasible case; where it decides an arm, the syntactic R15.1 is subordinate to it. R09.14 (no untranslated forward of a source item) is evaluated here as well."
 
 
 def run(ctx):
